@@ -223,11 +223,18 @@ func evalPoint(p policyPoint, res *worker.Result) (paused bool) {
 	defer func() {
 		if r := recover(); r != nil {
 			shape := "other"
+			j, f := float64(p.Jitter), float64(p.Factor)
 			switch {
-			case p.Jitter == 0:
+			case j == 0:
 				shape = "jitter-0"
-			case p.Attempt >= 38:
-				shape = "large-attempt"
+			case math.IsNaN(j) || j < 0 || j > 1:
+				shape = "jitter-out-of-domain"
+			case p.Backoff <= 0 || (f == 0 && p.Attempt > 0):
+				shape = "zero-interval"
+			case f < 1:
+				shape = "vanishing-interval"
+			default:
+				shape = "overflow"
 			}
 			res.Violate("policy-panic:"+shape, fmt.Sprintf("%s panicked: %v", stage, r), map[string]any{"point": p, "stack": string(debug.Stack())})
 		}
@@ -296,7 +303,9 @@ func evalPoint(p policyPoint, res *worker.Result) (paused bool) {
 			res.Violate("pause-out-of-bounds", fmt.Sprintf("pause %v outside [%v, %v]", d, p.MinWait, p.MaxWait), w)
 			break
 		}
-		if p.Status == 429 {
+		// a custom Backoff function decides itself what to do with the header;
+		// ExponentialBackoff (and DefaultBackoff) promise to use it
+		if p.Status == 429 && !strings.Contains(p.Cell, "|custom-fn|") {
 			if want, ok := expectRetryAfter(p.RetryAfter, p.MinWait, p.MaxWait); ok {
 				res.Count("retry_after_checked", 1)
 				if d != want {
@@ -320,7 +329,7 @@ func runPolicyCase(i int, tier string, rng *rand.Rand, res *worker.Result) {
 	c := decodeCell(cellIdx % policyCells())
 	n := 50
 	if tier == "thorough" {
-		n = 70
+		n = 150
 	}
 	paused := 0
 	var sample policyPoint
